@@ -21,3 +21,7 @@ require (
 )
 
 replace github.com/dapr/kit => /repo
+
+// an unmodified copy of the version /repo requires (kept in step by ./check), so that the weaver can overlay it:
+// files inside the module cache cannot be overlaid
+replace github.com/alphadose/haxmap => ./third_party/haxmap
